@@ -8,6 +8,7 @@ import (
 	"testing"
 	"time"
 
+	"github.com/hashicorp/memberlist"
 	"github.com/hashicorp/serf/serf"
 	"pgregory.net/rapid"
 
@@ -44,9 +45,10 @@ type c15Step struct {
 
 type c15Case struct {
 	Members  int       `json:"members"`
-	R        int       `json:"R"`        // reconnect timeout, hours
-	T        int       `json:"T"`        // tombstone timeout, hours
-	Override []int     `json:"override"` // per member, hours; 0 = no override
+	R        int       `json:"R"`              // reconnect timeout, hours
+	T        int       `json:"T"`              // tombstone timeout, hours
+	Override []int     `json:"override"`       // per member, hours; 0 = no override
+	Real     bool      `json:"real,omitempty"` // the node's own reaper goroutine does the reaping (see bodyC15Real)
 	Steps    []c15Step `json:"steps"`
 }
 
@@ -56,6 +58,7 @@ func genC15(t *rapid.T) c15Case {
 		R:       rapid.SampledFrom([]int{4, 10}).Draw(t, "R"),
 		T:       rapid.SampledFrom([]int{10, 24}).Draw(t, "T"),
 	}
+	c.Real = rapid.IntRange(0, 4).Draw(t, "real") == 0
 	hours := []int{0, 40, c.R, c.R, c.T, c.T}
 	for i := 0; i < c.Members; i++ {
 		o := rapid.SampledFrom([]int{0, 0, 0, 2, 6, 16, 30}).Draw(t, "override")
@@ -109,6 +112,10 @@ func c15Name(i int) string { return fmt.Sprintf("m%d", i) }
 func bodyC15(c c15Case, x *vkit.Ctx) {
 	if c.Members < 1 || c.R < 1 || c.T < 1 {
 		x.Inconclusive("bad case")
+		return
+	}
+	if c.Real {
+		bodyC15Real(c, x)
 		return
 	}
 	const self = "self"
@@ -454,6 +461,258 @@ func bodyC15(c c15Case, x *vkit.Ctx) {
 		x.Label("rejoin-after-force-leave-of-failed")
 	}
 	x.NonTrivial(ntMixedReap || ntRejoinAfterForce)
+}
+
+// bodyC15Real: the same histories, but the node's own handleReap goroutine
+// (ReapInterval 2 ms) does the reaping with the real clock. Timeouts are
+// either "tiny" (1 ns: R=4, T=10, overrides <= 6 h) or long (the given hours),
+// so "past the timeout" is again never decided by real milliseconds. This
+// mode exists because VerifReap repeats the three lines of handleReap that
+// choose which timeout goes with which list; here those lines themselves run.
+// Judged: the counters (read race-free), long-timeout failed/left members are
+// never removed unless the step acted on them, tiny-timeout ones disappear
+// (2 s cap, starvation-guarded). Reap events are not judged in this mode.
+func bodyC15Real(c c15Case, x *vkit.Ctx) {
+	const self = "self"
+	dur := func(h int, tinyUpTo int) time.Duration {
+		if h <= tinyUpTo {
+			return time.Nanosecond
+		}
+		return time.Duration(h) * time.Hour
+	}
+	R, T := dur(c.R, 4), dur(c.T, 10)
+	ov := c15Override{}
+	for i := 0; i < c.Members && i < len(c.Override); i++ {
+		if c.Override[i] > 0 {
+			ov[c15Name(i)] = dur(c.Override[i], 6)
+		}
+	}
+	timeoutOf := func(name string, st serf.MemberStatus) (time.Duration, bool) {
+		var d time.Duration
+		switch st {
+		case serf.StatusFailed:
+			d = R
+		case serf.StatusLeft:
+			d = T
+		default:
+			return 0, false
+		}
+		if o, ok := ov[name]; ok {
+			d = o
+		}
+		return d, true
+	}
+	nw := simnet.New(1)
+	n, err := node.New(nw, node.Opts{Name: self, Quiet: true, Mutate: func(cf *serf.Config) {
+		cf.ReconnectTimeout, cf.TombstoneTimeout = R, T
+		cf.ReconnectTimeoutOverride = ov
+		cf.ReapInterval = 2 * time.Millisecond
+	}})
+	if err != nil {
+		x.Inconclusive("node setup: " + err.Error())
+		return
+	}
+	defer n.Stop()
+	mon := vkit.StartMonitor()
+	defer mon.Stop()
+	drop := func(serf.Event) {}
+
+	view := func() map[string]serf.MemberStatus {
+		out := map[string]serf.MemberStatus{}
+		for _, m := range n.Serf.Members() {
+			out[m.Name] = m.Status
+		}
+		return out
+	}
+	same := func(a, b map[string]serf.MemberStatus) bool {
+		if len(a) != len(b) {
+			return false
+		}
+		for k, v := range a {
+			if w, ok := b[k]; !ok || w != v {
+				return false
+			}
+		}
+		return true
+	}
+	// counters, read between two identical member lists (the reaper runs concurrently)
+	counters := func(si int, what string) bool {
+		for try := 0; try < 20; try++ {
+			a := view()
+			st := n.Serf.Stats()
+			if !same(a, view()) {
+				continue
+			}
+			nf, nl := 0, 0
+			for _, s := range a {
+				if s == serf.StatusFailed {
+					nf++
+				}
+				if s == serf.StatusLeft {
+					nl++
+				}
+			}
+			if st["failed"] != fmt.Sprint(nf) {
+				x.Violationf("failed-count-mismatch", "step %d (%s, own reaper): Stats failed=%s but Members() lists %d failed (%v)", si, what, st["failed"], nf, a)
+				return false
+			}
+			if st["left"] != fmt.Sprint(nl) {
+				x.Violationf("left-count-mismatch", "step %d (%s, own reaper): Stats left=%s but Members() lists %d left (%v)", si, what, st["left"], nl, a)
+				return false
+			}
+			return true
+		}
+		return true // never got a quiet reading; nothing to say
+	}
+	kept, reapedTiny := 0, 0
+	judge := func(si int, what string, last, cur map[string]serf.MemberStatus, acted string) bool {
+		for name, st := range last {
+			if _, still := cur[name]; still || name == acted {
+				continue
+			}
+			if name == self {
+				x.Violationf("self-removed", "step %d (%s, own reaper): the node removed itself", si, what)
+				return false
+			}
+			if d, ok := timeoutOf(name, st); ok {
+				if d > time.Nanosecond {
+					x.Violationf("reaped-before-timeout", "step %d (%s, own reaper): %s was %v with a timeout of %v (R=%v T=%v override %v) and has been removed", si, what, name, st, d, R, T, ov[name])
+					return false
+				}
+				reapedTiny++
+			}
+		}
+		return true
+	}
+	waitGone := func(si int, what string) bool {
+		deadline := time.Now().Add(waitCap)
+		spins := 0
+		for {
+			var due []string
+			long := 0
+			for name, st := range view() {
+				if d, ok := timeoutOf(name, st); ok {
+					if d <= time.Nanosecond {
+						due = append(due, fmt.Sprintf("%s(%v)", name, st))
+					} else {
+						long++
+					}
+				}
+			}
+			if len(due) == 0 {
+				kept += long
+				return true
+			}
+			if time.Now().After(deadline) {
+				sort.Strings(due)
+				missing(x, mon, "not-reaped-after-timeout", "step %d (%s, own reaper every 2ms): %v have a 1ns timeout (R=%v T=%v override %v) and are still listed after %v", si, what, due, R, T, ov, waitCap)
+				return false
+			}
+			spin(&spins)
+		}
+	}
+
+	mlUp := map[int]bool{}
+	tags := map[int]int{}
+	meta := func(tag int) []byte { return n.Serf.VerifEncodeTags(map[string]string{"t": fmt.Sprint(tag)}) }
+	pick := func(start int, want bool) (int, bool) {
+		for k := 0; k < c.Members; k++ {
+			i := (start + k) % c.Members
+			if mlUp[i] == want {
+				return i, true
+			}
+		}
+		return 0, false
+	}
+	last := view()
+	waits := 0
+	for si, st := range c.Steps {
+		cur := view()
+		if !judge(si, "between steps", last, cur, "") {
+			return
+		}
+		last = cur
+		what, acted := "", ""
+		switch st.Kind {
+		case 0, 1, 2:
+			i, ok := pick(st.M, st.Kind != 0)
+			if !ok {
+				continue
+			}
+			acted = c15Name(i)
+			mn := func() *memberlist.Node {
+				return node.MLNode(acted, fmt.Sprintf("127.0.7.%d", i+1), 7946, meta(tags[i]), 5, 5)
+			}
+			switch st.Kind {
+			case 0:
+				mlUp[i], what = true, "NotifyJoin "+acted
+				n.EventsD.NotifyJoin(mn())
+			case 1:
+				mlUp[i], what = false, "NotifyLeave "+acted
+				n.EventsD.NotifyLeave(mn())
+			case 2:
+				tags[i] = st.Tag
+				what = "NotifyUpdate " + acted
+				n.EventsD.NotifyUpdate(mn())
+			}
+		case 3, 4:
+			acted = c15Name(st.M % c.Members)
+			var base uint64
+			if s, ok := n.Serf.VerifStatusLTime(acted); ok {
+				base = uint64(s)
+			} else {
+				mc, _, _ := n.Serf.VerifClocks()
+				base = uint64(mc)
+			}
+			lt := satAdd(base, uint64(max(st.Rel, 0)))
+			if st.Kind == 3 {
+				what = fmt.Sprintf("join intent %s@%d", acted, lt)
+				n.Delegate.NotifyMsg(encJoin(lt, acted))
+			} else {
+				what = fmt.Sprintf("leave intent %s@%d prune=%v", acted, lt, st.Prune)
+				n.Delegate.NotifyMsg(encLeave(lt, acted, st.Prune))
+			}
+		case 5:
+			acted = c15Name(st.M % c.Members)
+			what = fmt.Sprintf("local RemoveFailedNode %s prune=%v", acted, st.Prune)
+			if st.Prune {
+				_ = n.Serf.RemoveFailedNodePrune(acted)
+			} else {
+				_ = n.Serf.RemoveFailedNode(acted)
+			}
+		case 6:
+			what = "wait for the reaper"
+			waits++
+			if !waitGone(si, what) {
+				return
+			}
+		}
+		cur = view()
+		if !judge(si, what, last, cur, acted) {
+			return
+		}
+		last = cur
+		if !counters(si, what) {
+			return
+		}
+		poll(n, drop)
+	}
+	if !waitGone(len(c.Steps), "end of history") {
+		return
+	}
+	cur := view()
+	if !judge(len(c.Steps), "end of history", last, cur, "") {
+		return
+	}
+	x.Label("own-reaper")
+	x.Labelf("own-reaper:R-tiny=%v,T-tiny=%v", R == time.Nanosecond, T == time.Nanosecond)
+	if reapedTiny > 0 {
+		x.Label("own-reaper:reaped")
+	}
+	if kept > 0 {
+		x.Label("own-reaper:kept-long-timeout-entry")
+	}
+	x.NonTrivial(reapedTiny > 0 && kept > 0)
 }
 
 func TestC15(t *testing.T) { vkit.Run(t, "C15", genC15, bodyC15) }
